@@ -3,6 +3,7 @@ package main
 import (
 	"fmt"
 	"go/types"
+	"os"
 	"strings"
 
 	"golang.org/x/tools/go/ssa"
@@ -17,7 +18,10 @@ func (e *Engine) verifyFunc(fn *ssa.Function, c *Contract) (vc *VC, err error) {
 				err = fmt.Errorf("%s", ee.msg)
 				return
 			}
-			panic(r)
+			if os.Getenv("GOVC_DEBUG") != "" {
+				panic(r)
+			}
+			err = fmt.Errorf("internal error in the VC generator: %v", r)
 		}
 	}()
 	fr := vc.newFrame(fn, nil)
@@ -49,6 +53,20 @@ func (e *Engine) verifyFunc(fn *ssa.Function, c *Contract) (vc *VC, err error) {
 		}
 		vc.assumeAlways(v.C[0])
 		vc.assumed["global invariant: "+g.Text] = true
+	}
+	if tn := c.Flags["implements"]; tn != "" {
+		// behavioural subtyping: this function must meet the named function-type contract
+		key := tn
+		if !strings.Contains(key, "::") {
+			key = c.Pkg + "::" + tn
+		}
+		tc := e.cs.Types[key]
+		if tc == nil {
+			return vc, fmt.Errorf("%s:%d: implements %s: no such type contract", c.File, c.Line, tn)
+		}
+		c = mergeImplements(c, tc, fn)
+		vc.contract = c
+		fr.contract = c
 	}
 	fr.entry = st.clone()
 	for _, l := range c.Lets {
@@ -125,6 +143,9 @@ func (e *Engine) verifyFunc(fn *ssa.Function, c *Contract) (vc *VC, err error) {
 			}
 			vc.oblige(res.normal, "post", c.clauseName(en), t, fn.Pos(), en.Text)
 		}
+		if err := fr.frameObligations(c, res.normal, "frame"); err != nil {
+			return vc, err
+		}
 	}
 	if res.panicSt != nil {
 		if c.Flags["nopanic"] != "" {
@@ -136,6 +157,9 @@ func (e *Engine) verifyFunc(fn *ssa.Function, c *Contract) (vc *VC, err error) {
 				return vc, fmt.Errorf("%s:%d: %v", en.File, en.Line, err)
 			}
 			vc.oblige(res.panicSt, "post_panic", c.clauseName(en), t, fn.Pos(), en.Text)
+		}
+		if err := fr.frameObligations(c, res.panicSt, "frame_panic"); err != nil {
+			return vc, err
 		}
 	} else if c.Flags["nopanic"] != "" {
 		// no exceptional exit exists at all: discharged by construction
@@ -181,4 +205,31 @@ func (fr *Frame) resultEnv(results []Value, dummy bool) map[string]bound {
 		}
 	}
 	return env
+}
+
+// mergeImplements builds the contract a function must meet to implement a function-type
+// contract: the type contract's clauses, with its parameter names bound to this function's
+// parameters by position (as let-bindings), plus the function's own clauses.
+func mergeImplements(c, tc *Contract, fn *ssa.Function) *Contract {
+	n := *c
+	n.Lets = nil
+	for i, pn := range tc.Params {
+		if i < len(fn.Params) && fn.Params[i].Name() != pn {
+			n.Lets = append(n.Lets, &Clause{Kind: "let", Label: pn, Text: fn.Params[i].Name(), File: tc.File, Line: tc.Line})
+		}
+	}
+	n.Lets = append(n.Lets, tc.Lets...)
+	n.Lets = append(n.Lets, c.Lets...)
+	n.Modifies = append(append([]string{}, tc.Modifies...), c.Modifies...)
+	n.Requires = append(append([]*Clause{}, tc.Requires...), c.Requires...)
+	n.Ensures = append(append([]*Clause{}, tc.Ensures...), c.Ensures...)
+	n.EnsPanic = append(append([]*Clause{}, tc.EnsPanic...), c.EnsPanic...)
+	if tc.Flags["nopanic"] != "" {
+		n.Flags = map[string]string{}
+		for k, v := range c.Flags {
+			n.Flags[k] = v
+		}
+		n.Flags["nopanic"] = "1"
+	}
+	return &n
 }
